@@ -1,15 +1,51 @@
 import Jrpc.Gen.Consts
+import Jrpc.Gen.Funcs
 import Jrpc.Model.Dispatch
-/-! # Tie obligations for C17: the reserved prefix and the built-in name of the current source. -/
+/-! # Tie obligations for C17: the reserved-name gate of `Server.assignLocked` in the current source
+is the model's, for every name. -/
 namespace Jrpc.Tie.C17
-open Jrpc.Gen Jrpc.Dispatch
+open Jrpc.Gen Jrpc.Dispatch Jrpc.GoPrelude
 
-/-- `assignLocked` tests `s.builtin && strings.HasPrefix(name, "rpc.")` (go2lean fails if the
-gate has any other form) with exactly the model's prefix -/
-theorem reserved_prefix_matches : Consts.reservedPrefix = reservedPrefix := by decide
+/-- the model's gate as a three-way answer -/
+def modelGate (builtin : Bool) (name : Name) : GateOut :=
+  if builtin && hasPrefix reservedPrefix name then
+    (if name = rpcServerInfo then .serverInfo else .nobody)
+  else .assigner
 
-/-- the only name answered inside the gate is `rpc.serverInfo` -/
-theorem builtin_names_match : Consts.builtinNames = [rpcServerInfo] := by decide
+/-- `serverAssign` consults the assigner exactly when the gate says so, answers `rpc.serverInfo`
+itself and nothing else under the prefix -/
+theorem modelGate_spec {H : Type} (builtin : Bool) (mux : Assigner H) (name : Name) :
+    (modelGate builtin name = .assigner →
+      serverAssign builtin mux name = (match mux name with | some h => .user h | none => .notFound)) ∧
+    (modelGate builtin name = .serverInfo → serverAssign builtin mux name = .builtinInfo) ∧
+    (modelGate builtin name = .nobody → serverAssign builtin mux name = .notFound) := by
+  unfold modelGate serverAssign
+  cases hg : (builtin && hasPrefix reservedPrefix name) with
+  | true =>
+    by_cases hn : name = rpcServerInfo
+    · simp only [hn, if_true]
+      refine ⟨fun h => by simp at h, fun _ => by simp, fun h => by simp at h⟩
+    · simp only [hn, if_false]
+      refine ⟨fun h => by simp at h, fun h => by simp at h, fun _ => by simp⟩
+  | false =>
+    simp only [Bool.false_eq_true, if_false]
+    refine ⟨fun _ => rfl, fun h => by simp at h, fun h => by simp at h⟩
+
+/-- **the gate of the current source** (translated by go2lean together with the helpers it returns
+through, whatever the spelling: `a && b`, `!a || !b` with an early return, a switch, a constant for
+the prefix) **is the model's gate, for every name** -/
+theorem assign_gate_matches (builtin : Bool) (name : Name) :
+    Funcs.assignGate builtin name (fun s p => hasPrefix p s) = modelGate builtin name := by
+  have hp : (([114, 112, 99, 46] : List UInt8)) = reservedPrefix := rfl
+  have hi : (([114, 112, 99, 46, 115, 101, 114, 118, 101, 114, 73, 110, 102, 111] : List UInt8)) = rpcServerInfo := rfl
+  unfold Funcs.assignGate modelGate
+  simp only [hp, hi]
+  have hpi : hasPrefix reservedPrefix rpcServerInfo = true := by decide
+  cases builtin
+  · simp
+  · by_cases h2 : name = rpcServerInfo
+    · subst h2; simp [hpi]
+    · by_cases h1 : hasPrefix reservedPrefix name = true <;> simp [h1, h2]
 
 theorem server_info_name : Consts.rpcServerInfo_bytes = rpcServerInfo := by decide
 
